@@ -303,6 +303,15 @@ def run(ctx):
     for i, (ws, t, h, fam) in enumerate(cases):
         reqs.append({"op": "store.remote", "scratch": scratch, "ws": ws, "targets": t, "history": h, "remote": ("s3", "mem")[i % 2],
                      "progress": i % 4 < 2, "direct": i % 7 == 6})
+    # the same histories through the backend grog itself constructs: backends.GetCacheBackend over an S3 cache configuration (real AWS
+    # SDK client against an in-process S3 endpoint serving the same object store and fault plan) resp. over no remote configuration for
+    # the runs without remote cache: every targeted history, every fault-free systematic one, a sample of the others (oracles only)
+    ncfg = 0
+    for i, (ws, t, h, fam) in enumerate(list(cases)):
+        if fam.startswith("fixed") or fam.endswith(":none") or i % (9 if quick else 4) == 0:
+            cases.append((ws, t, h, fam))
+            reqs.append({"op": "store.remote", "scratch": scratch, "ws": ws, "targets": t, "history": h, "construct": "config", "progress": ncfg % 2 == 0})
+            ncfg += 1
     outs = []
     for i in range(0, len(reqs), 50):
         part = S.impl(ctx, reqs[i:i + 50])
@@ -394,6 +403,9 @@ def run(ctx):
                               signature="remote-get-wrong-content")
         if x["dangling"] == [] and nontrivial:
             distinct.add(hashlib.sha1(S.jdump([ws, targets, h]).encode()).hexdigest())
+        if req.get("construct"):
+            stats["configured_backend_histories"] = stats.get("configured_backend_histories", 0) + 1
+            continue
         if req.get("direct"):
             stats["direct_histories"] = stats.get("direct_histories", 0) + 1
             continue
@@ -423,7 +435,7 @@ def run(ctx):
     ctx.coverage["evaluations"] = len(reqs)
     ctx.coverage["traces_validated_against_impl"] = len(replays)
     ctx.coverage["distinct_nontrivial"] = len(distinct)
-    ctx.coverage["rule"] = ("17 targeted histories + the cross product {remote op kind x failure point x repetition, local disk full at L bytes} x {fresh build, build over local-only blobs, load-then-write, broken source stream, restore, restore with a directory at the file path, peek-then-restore} over a small workload (quick: a third of it) and a multi-MiB blob; every history ends with a restore on an unused machine; remote = in-memory backend or the real S3Cache over a fake S3 client; with and without ProgressTracker (incl. load-then-write of a local-only digest in one process, mid-stream remote read failures and early-closing consumers followed by a second read) (incl. the Lean witness of F-remote-skip and remote Set failing after the local tier stored) + generated histories over "
+    ctx.coverage["rule"] = ("17 targeted histories + the cross product {remote op kind x failure point x repetition, local disk full at L bytes} x {fresh build, build over local-only blobs, load-then-write, broken source stream, restore, restore with a directory at the file path, peek-then-restore} over a small workload (quick: a third of it) and a multi-MiB blob; every history ends with a restore on an unused machine; remote = in-memory backend or the real S3Cache over a fake S3 client, and for the targeted / fault-free / a sample of the other histories once more the backend backends.GetCacheBackend constructs from an S3 configuration (real AWS SDK client against an in-process S3 endpoint over the same object store); with and without ProgressTracker (incl. load-then-write of a local-only digest in one process, mid-stream remote read failures and early-closing consumers followed by a second read) (incl. the Lean witness of F-remote-skip and remote Set failing after the local tier stored) + generated histories over "
                             "machines A,B,C: build with remote cache, build without remote cache (local-only blobs), restore into an emptied workspace; remote faults "
                             "scripted per step on get/set/exists (err, err-mid, err-late = read everything then fail, err-after = stored then fail); workloads of 1-3 "
                             "targets sharing contents; non-trivial = distinct history in which some machine restored outputs successfully and the remote stayed closed")
